@@ -68,6 +68,39 @@ mod nonce;
 mod proofs;
 mod states;
 
+/// Verification instrumentation: re-exports of crate-private pure functions so that they can be
+/// tested densely against a reference. Compiled only with feature `verif-hooks`.
+#[cfg(feature = "verif-hooks")]
+#[allow(missing_docs)]
+pub mod verif_hooks {
+    use crate::{states::*, types::*, Nonce, PaymentAmount};
+    use zkchannels_crypto::Message;
+
+    pub use crate::states::State;
+
+    pub fn payment_amount_to_scalar(amount: PaymentAmount) -> Scalar {
+        amount.to_scalar()
+    }
+    pub fn customer_balance_to_scalar(balance: CustomerBalance) -> Scalar {
+        balance.to_scalar()
+    }
+    pub fn merchant_balance_to_scalar(balance: MerchantBalance) -> Scalar {
+        balance.to_scalar()
+    }
+    pub fn channel_id_to_scalar(channel_id: ChannelId) -> Scalar {
+        channel_id.to_scalar()
+    }
+    pub fn nonce_as_scalar(nonce: &Nonce) -> Scalar {
+        nonce.as_scalar()
+    }
+    pub fn state_to_message(state: &State) -> Message<5> {
+        state.to_message()
+    }
+    pub fn close_state_to_message(close_state: &CloseState) -> Message<5> {
+        close_state.to_message()
+    }
+}
+
 mod types {
     pub use bls12_381::{pairing, G1Affine, G1Projective, G2Affine, G2Projective, Scalar};
     pub use zkchannels_crypto::*;
